@@ -122,7 +122,8 @@ def emit(model, ch):
     cmt = ' // note' if ch['comments'] else ''
     lines = []
     if ch['namespace']:
-        lines.append('namespace RefModel' + cmt)
+        # the common convention: the namespace is the name of the root feature
+        lines.append('namespace ' + (model[0][0] if not needs_quotes(model[0][0]) else 'RefModel') + cmt)
     if ch['include']:
         lines.append('include' + cmt)
         lines.append(ind + 'Boolean.group-cardinality' + cmt)
